@@ -1,6 +1,7 @@
 """C04 - validation never modifies the caller's data unless inplace=True; container kind preserved."""
 from __future__ import annotations
 
+from dataclasses import replace
 from typing import Any, Dict
 
 from .. import compare as cmp
@@ -60,7 +61,9 @@ def compare(vec: Dict[str, Any], obs: Dict[str, Any]) -> Outcome:
 PROP = Prop(
     id="C04",
     title="Validation never modifies the caller's data unless inplace=True",
-    slices=[slices.SERIES_PARSE, slices.FRAME_PARSE, slices.SERIES, COMPONENT, MULTIINDEX, FRAME_ROWS_ALL] + slices.FRAME_SLICES,
+    slices=[slices.SERIES_PARSE, slices.FRAME_PARSE, slices.SERIES, COMPONENT, MULTIINDEX, FRAME_ROWS_ALL, slices.CONTAINER, slices.INDEX,
+            # the columns / joint-uniqueness slices add verdict shapes, not aliasing paths: thorough tier only
+            replace(slices.COLUMNS, tiers=("thorough",)), replace(slices.JOINT, tiers=("thorough",))],
     compare=compare,
     rule=("The pipeline specification models aliasing explicitly (Preprocess sets aliased := inplace; every in-place stage "
           "writes through Write); TLC proves NoCallerMutation for every explored run. Each run is replayed with a deep "
